@@ -174,6 +174,13 @@ class Names(Harness):
                 before = (list(shared.args), dict(shared.kwargs))
                 first = fluent.Node(shared, [srcs[i] for i in d1[2]])
                 first_payload = (list(first.payload[1]), dict(first.payload[2]))
+                # the caller goes on using its Payload object (changes a static argument in place for the next program)
+                shared.args.append("changed-later")
+                shared.kwargs["changed-later"] = 1
+                if (list(first.payload[1]), dict(first.payload[2])) != first_payload:
+                    raise Violation("existing-node-follows-later-changes-of-the-callers-payload", f"{first_payload} -> {first.payload[1:]}: the node keeps its name but computes something else")
+                shared.args.pop()
+                del shared.kwargs["changed-later"]
                 second = fluent.Node(shared, [srcs[i] for i in d2[2]])
                 fresh_second = fluent.Node(fluent.Payload(fn1, list(d1[0]), dict(d1[1])), [srcs[i] for i in d2[2]])
                 if (list(shared.args), dict(shared.kwargs)) != before:
